@@ -44,6 +44,10 @@ type Obj struct {
 	Shapes []s2.Shape // OIndex: shapes added so far, in id order
 	Desc   *ObjDesc
 	World  []*Obj // the world this object belongs to (for aliased shapes)
+	// C13: which description each live shape was built from, and shape objects that were in the
+	// index before a Reset (a caller may add the very same object again)
+	ShapeIdx []int
+	retired  map[int]s2.Shape
 }
 
 // indexOfLoop / indexOfPolygon reach the embedded index without depending on private names at
@@ -108,8 +112,36 @@ func buildObjIn(d *ObjDesc, nShapes int, world []*Obj) *Obj {
 	return o
 }
 
-func (o *Obj) addShape(i int) {
+func (o *Obj) addShape(i int) { o.addShapeReusing(i, false) }
+
+// resetIndex resets the index and remembers the shape objects it held.
+func (o *Obj) resetIndex() {
+	if o.retired == nil {
+		o.retired = map[int]s2.Shape{}
+	}
+	for k, sh := range o.Shapes {
+		if k < len(o.ShapeIdx) {
+			o.retired[o.ShapeIdx[k]] = sh
+		}
+	}
+	o.Index.Reset()
+	o.Shapes = nil
+	o.ShapeIdx = nil
+}
+
+// addShapeReusing adds shape i; with reuse it adds the same Go object that was in the index before
+// the last Reset, when there is one.
+func (o *Obj) addShapeReusing(i int, reuse bool) {
 	var sh s2.Shape
+	if old, ok := o.retired[i]; ok && reuse {
+		sh = old
+		delete(o.retired, i)
+		o.Shapes = append(o.Shapes, sh)
+		o.ShapeIdx = append(o.ShapeIdx, i)
+		o.Index.Add(sh)
+		return
+	}
+	o.ShapeIdx = append(o.ShapeIdx, i)
 	if a := o.aliasOf(i); a != nil {
 		sh = a
 	} else {
